@@ -88,12 +88,16 @@ Consistent(c, t, ps, dv) == \A i, j \in Named(ps) :
 \* Bounds written with BINDINGS: "id"@[?lo,?hi] (either side may also be a time or empty).  The binding is an INPUT of
 \* the clause: its value in the row that is being extended (a time anchor bound by an earlier clause) is the bound.
 \* c.p.lb / c.p.ub = the binding names ("" = the side is written as a time, c.p.lo / c.p.hi, or is empty).
-HasBoundNames(c) == "lb" \in DOMAIN c.p /\ (c.p.lb # "" \/ c.p.ub # "")
+PHasBoundNames(c) == "lb" \in DOMAIN c.p /\ (c.p.lb # "" \/ c.p.ub # "")
+OHasBoundNames(c) == "lb" \in DOMAIN c.o /\ (c.o.lb # "" \/ c.o.ub # "")     \* the same for a predicate in the object position
+HasBoundNames(c) == PHasBoundNames(c) \/ OHasBoundNames(c)
 BoundOf(a, name, const) == IF name = "" THEN const
                            ELSE IF name \in DOMAIN a /\ a[name].k = "T" THEN a[name].v ELSE 0 - 1
 \* the predicate part of clause c as it reads for the row assignment a (0 - 1 = no usable value: matches nothing)
-PredFor(c, a) == IF ~HasBoundNames(c) THEN c.p
+PredFor(c, a) == IF ~PHasBoundNames(c) THEN c.p
                  ELSE [c.p EXCEPT !.lo = BoundOf(a, c.p.lb, c.p.lo), !.hi = BoundOf(a, c.p.ub, c.p.hi)]
+ObjFor(c, a) == IF ~OHasBoundNames(c) THEN c.o
+                ELSE [c.o EXCEPT !.lo = BoundOf(a, c.o.lb, c.o.lo), !.hi = BoundOf(a, c.o.ub, c.o.hi)]
 Matches(c, t, glo, ghi, dv) ==
     /\ SubjOK(c, t) /\ PredPartOK(c.p, t.p, c.opt) /\ ObjOK(c, t, c.opt)
     /\ GlobalOK(t, glo, ghi)
@@ -183,7 +187,7 @@ PrevNames(cs, i) == UNION {ClauseNames(cs[k]) : k \in 1..(i - 1)}
 Step(S, cs, i, D0, glo, ghi, dv, fs) ==
     LET c == cs[i]
         D == FilteredData(c, fs, D0, glo, ghi)
-        cx(x) == IF HasBoundNames(c) THEN [c EXCEPT !.p = PredFor(c, x.a)] ELSE c
+        cx(x) == IF HasBoundNames(c) THEN [c EXCEPT !.p = PredFor(c, x.a), !.o = ObjFor(c, x.a)] ELSE c
         ext(x) == {[a |-> Merge(x.a, Assign(c, d[2])), w |-> Append(x.w, d)] :
                       d \in {d \in D : Matches(cx(x), d[2], glo, ghi, dv) /\ Compatible(x.a, Assign(c, d[2]))}}
         nul(x) == [a |-> Merge(x.a, [b \in ClauseNames(c) |-> Null]), w |-> Append(x.w, <<0, NoTriple>>)]
@@ -237,7 +241,7 @@ Deviations == {"oid-alias-unchecked", "rows-without-bindings-dropped"}
 TimeNames(c) == {c.p.ab, c.p.at, c.o.ab, c.o.at} \ {""}
 PRED_TEMPORAL_ONLY(c) == TRUE   \* a mandatory clause only matches when its AT / anchor bindings get a time (PredPartOK, ObjOK)
 BoundNamesOpen(cs) == \E i \in DOMAIN cs : HasBoundNames(cs[i]) /\
-    LET c == cs[i]  ns == {c.p.lb, c.p.ub} \ {""}
+    LET c == cs[i]  ns == ((IF PHasBoundNames(c) THEN {c.p.lb, c.p.ub} ELSE {}) \cup (IF OHasBoundNames(c) THEN {c.o.lb, c.o.ub} ELSE {})) \ {""}
         ok == UNION {TimeNames(cs[k]) : k \in {k \in 1..(i - 1) : ~cs[k].opt /\ PRED_TEMPORAL_ONLY(cs[k])}}
     IN  \/ c.opt \/ ~(ns \subseteq ok) \/ ns \cap ClauseNames(c) # {}
 OpenQuery(q) ==
